@@ -6,10 +6,20 @@ use serde_json::{json, Value};
 use std::io::{BufRead, Write};
 use std::str::FromStr;
 
-fn keys_and_digests(parent: &Element, fam: &str) -> (Vec<String>, Vec<String>) {
+fn keys_and_digests(parent: &Element, fam: &str) -> (Vec<String>, Vec<String>, Vec<String>) {
     let mut keys = vec![];
+    let mut ckeys = vec![];
     let mut digs = vec![];
     for e in parent.sub_elements() {
+        if fam == "nested" {
+            // the key of a sibling is its content; canonical key and digest: the same content in order
+            let mut texts: Vec<String> = e.sub_elements().map(|sd| sd.character_data().map(|c| c.to_string()).unwrap_or_default()).collect();
+            keys.push(texts.join(","));
+            texts.sort();
+            ckeys.push(texts.join(","));
+            digs.push(format!("{}:{}", e.element_name().to_str(), texts.join(",")));
+            continue;
+        }
         let k = match fam {
             "pkg" => e.item_name().unwrap_or_default(),
             "mixed" => format!("{}:{}", e.element_name().to_str(), e.item_name().unwrap_or_default()),
@@ -19,11 +29,12 @@ fn keys_and_digests(parent: &Element, fam: &str) -> (Vec<String>, Vec<String>) {
                 format!("{}/{}/{}", d.rsplit('/').next().unwrap_or(""), get(ElementName::Index), get(ElementName::Value))
             }
         };
-        keys.push(k);
+        keys.push(k.clone());
+        ckeys.push(k);
         digs.push(text_hash(&e.serialize()));
     }
     digs.sort();
-    (keys, digs)
+    (keys, ckeys, digs)
 }
 
 pub fn run(input: &str, output: &str, trace: &str) -> Value {
@@ -49,6 +60,20 @@ pub fn run(input: &str, output: &str, trace: &str) -> Value {
                     e.set_comment(Some(format!("cmt {name}")));
                 }
                 pkgs.clone()
+            }
+            "nested" => {
+                let pkg = pkgs.create_named_sub_element(ElementName::ArPackage, "p").unwrap();
+                let sdgs = pkg.create_sub_element(ElementName::AdminData).and_then(|a| a.create_sub_element(ElementName::Sdgs)).unwrap();
+                for p in &perm {
+                    let sdg = sdgs.create_sub_element(ElementName::Sdg).unwrap();
+                    let _ = sdg.set_attribute_string(AttributeName::Gid, "g");
+                    for t in p.as_array().cloned().unwrap_or_default() {
+                        let sd = sdg.create_sub_element(ElementName::Sd).unwrap();
+                        let _ = sd.set_attribute_string(AttributeName::Gid, "v");
+                        let _ = sd.set_character_data(t.as_str().unwrap_or("").to_string());
+                    }
+                }
+                sdgs
             }
             "mixed" => {
                 let pkg = pkgs.create_named_sub_element(ElementName::ArPackage, "p").unwrap();
@@ -79,19 +104,19 @@ pub fn run(input: &str, output: &str, trace: &str) -> Value {
                 pv
             }
         };
-        let (before, subbefore) = keys_and_digests(&parent, &fam);
+        let (before, cbefore, subbefore) = keys_and_digests(&parent, &fam);
         // E1-style trace around the sort, so that TLC also judges tree / index / reference predicates on it
         let reset = json!({"ev": {"op": "reset"}, "res": {"t": "ok", "v": 0}, "obs": w.observe(true), "h": [], "fix": []});
         writeln!(tr, "{reset}").unwrap();
         let pid = { w.register_new(); w.idmap[&model.root_element()] };
         let a = json!({"op": "Sort", "m": 0, "p": pid, "c": 0, "k": "", "name": "", "pos": -1, "val": {"k": "s", "v": ""}, "an": "", "f": 0, "ver": ""});
         let res = w.exec(&a);
-        let (after, subafter) = keys_and_digests(&parent, &fam);
+        let (after, cafter, subafter) = keys_and_digests(&parent, &fam);
         writeln!(tr, "{}", json!({"ev": a, "res": res, "obs": w.observe(true)})).unwrap();
         let res2 = w.exec(&a);
-        let (after2, _) = keys_and_digests(&parent, &fam);
+        let (after2, _, _) = keys_and_digests(&parent, &fam);
         let rc = if res["t"] == "ok" && res2["t"] == "ok" { "ok".to_string() } else { format!("{}/{}", res["t"], res2["t"]) };
-        writeln!(out, "{}", json!({"fam": fam, "group": c["group"], "before": before, "after": after, "after2": after2, "res": rc,
+        writeln!(out, "{}", json!({"fam": fam, "group": c["group"], "before": before, "after": after, "after2": after2, "cbefore": cbefore, "cafter": cafter, "res": rc,
             "subbefore": subbefore, "subafter": subafter})).unwrap();
         n += 1;
     }
